@@ -17,10 +17,84 @@ func boundsFor(id, tier string) map[string]interface{} {
 	}
 	b := map[string]interface{}{"unwind_per_block": 80, "solver_timeout_ms": pick(20000, 120000)}
 	switch id {
-	case "C03", "C05", "C16", "C14", "C11", "C17":
-		b["request_path_bytes"] = pick(24, 40)
+	case "C03", "C05", "C16", "C14", "C11", "C17", "C13":
+		minL := map[string][2]int{"C03": {24, 40}, "C05": {24, 40}, "C11": {24, 40}, "C16": {20, 32}, "C17": {20, 32}, "C14": {16, 32}, "C13": {16, 32}}[id]
+		b["request_path_bytes"] = fmt.Sprintf("max(%d, base path + longest template + 6)", pick(minL[0], minL[1]))
 		b["method_bytes"] = 8
 		b["outside"] = "longer request paths / methods; specs outside the corpus families"
+	}
+	switch id {
+	case "C01":
+		b["rendered_source_bytes"] = 4
+		b["name_bytes"] = pick(6, 7)
+		b["free_text_bytes"] = pick(6, 7)
+		b["outside"] = "longer names/texts; joint type-checking of template snippets (observed on the corpus, not decided)"
+	case "C02", "C10":
+		b["string_bytes"] = 6
+		b["collection_items"] = pick(2, 2)
+		b["status_range"] = "100..599"
+		b["outside"] = "longer strings, larger collections, reader bodies (C10), user-written custom types"
+	case "C04":
+		b["parameter_text_bytes"] = map[string]int{"int": pick(12, 21), "int32": 12, "time": 8, "other": 6}
+		b["values_per_parameter"] = "0, 1 or 2"
+		b["designated_parameters_per_request"] = 1
+		b["outside"] = "two parameters deviating at once; more than two values; longer texts"
+	case "C05":
+		b["segment_bytes"] = "whatever fits the request path bound"
+	case "C06", "C07":
+		b["string_bytes"] = 6
+		b["collection_items"] = pick(2, 2)
+		b["nesting_depth"] = pick(2, 3)
+		b["schema_family_packages"] = pick(24, 48)
+		b["outside"] = "longer strings, larger collections, deeper nesting, schemas outside the S family and the fixtures"
+	case "C08":
+		b["document"] = "built from the schema: optional members present/absent, null where allowed, arrays of 0..1 items, one extra member, ONE designated deviation (kind swap / dropped required member) per document"
+		b["string_bytes"] = 6
+		b["schema_family_packages"] = pick(12, 24)
+		b["outside"] = "documents with two deviations, arrays of more than one item, key-order permutations (the decoder goes through a map)"
+	case "C09":
+		b["string_bytes"] = 6
+		b["collection_items"] = pick(2, 3)
+		b["max_parameters_per_operation"] = pick(9, 0)
+		b["outside"] = "operations with more parameters (quick), longer strings, custom types, reader bodies"
+	case "C12":
+		b["map_entries"] = 3
+		b["orders_per_range"] = "all n!"
+		b["pipeline_designated_ranges"] = pick(1, 2)
+		b["outside"] = "dependences that need more ranges to deviate at once; documents other than the harness literals"
+	case "C13":
+		b["file_bytes"] = pick(4, 5)
+		b["alphabet"] = "all 256 byte values"
+		b["middlewares"] = "0..2"
+	case "C14":
+		b["designated_parameters_per_request"] = 1
+		b["parameter_text_bytes"] = 8
+		b["body_shapes"] = "none, truncated, any scalar / empty collection, schema-derived document with one deviation"
+		b["outside"] = "raw byte bodies that are not built from JSON tokens; panics inside the standard library"
+	case "C15":
+		b["string_bytes"] = pick(6, 9)
+		b["nil_choices"] = "every optional pointer / map / interface of the kin-openapi node handed to a constructor"
+		b["outside"] = "template execution; whole-document mutation"
+	case "C16":
+		b["middlewares"] = fmt.Sprintf("0..%d", pick(3, 4))
+	case "C18":
+		b["rewrites"] = pick(2, 3)
+		b["parameter_text_bytes"] = 6
+		b["response_collections"] = 1
+		b["schema_family_packages"] = pick(12, 24)
+		b["large_documents"] = fmt.Sprintf("schemas with more than %d member positions: valid documents only", pick(6, 9))
+		b["outside"] = "rewrites the generator rejects or that do not compile; values where the Go shapes differ"
+	case "C19":
+		b["owned_names"] = 5
+		b["foreign_names"] = 2
+		b["pre_states"] = "all 2^7 existence combinations x content tags"
+		b["invocations"] = "all flag combinations"
+		b["exhaustive_within_model"] = true
+	case "C20":
+		b["as"] = "C14 (requests), C02 (responses), C09/C10 (client calls)"
+		b["race_replay"] = "4 goroutines x 50 requests"
+		b["pool_leftovers"] = "one designated sync.Pool.Get per path, raw-request harnesses"
+		b["outside"] = "goroutine schedules (argued from write confinement); sync primitives other than sync.Pool"
 	}
 	return b
 }
